@@ -5,6 +5,7 @@
 package main
 
 import (
+	"syscall"
 	"crypto/sha256"
 	"encoding/hex"
 	"encoding/json"
@@ -269,12 +270,39 @@ func runWorker(b *build, pkg string, sp spec, wdir string) (*result, error) {
 	done := make(chan error, 1)
 	go func() { done <- cmd.Wait() }()
 	var werr error
-	select {
-	case werr = <-done:
-	case <-time.After(time.Duration(limit) * time.Second):
-		cmd.Process.Kill()
-		<-done
-		return nil, fmt.Errorf("worker for %s exceeded its hard limit of %ds", sp.Scenario, limit)
+	hard := time.After(time.Duration(limit) * time.Second)
+	tick := time.NewTicker(10 * time.Second)
+	defer tick.Stop()
+	lastCPU, lastChange := cpuTicks(cmd.Process.Pid), time.Now()
+wait:
+	for {
+		select {
+		case werr = <-done:
+			break wait
+		case <-tick.C:
+			// A worker whose threads are blocked outside the scheduler (a lock of an uninstrumented package
+			// that is never released, e.g. database/sql's after a panic in a Scanner) uses no CPU and never
+			// ends: the explorer cannot see that hang, so it is detected here. The longest legitimate
+			// real-time wait of a harness is one minute.
+			if cur := cpuTicks(cmd.Process.Pid); cur != lastCPU {
+				lastCPU, lastChange = cur, time.Now()
+			} else if time.Since(lastChange) > stallLimit {
+				cmd.Process.Signal(syscall.SIGQUIT) // goroutine dump on stderr
+				select {
+				case <-done:
+				case <-time.After(20 * time.Second):
+					cmd.Process.Kill()
+					<-done
+				}
+				msg := fmt.Sprintf("the worker for %s made no progress for %s (no CPU time used, not at a scheduling point): code under test is blocked outside the scheduler and would never return. Goroutines blocked in reservoir code:\n%s", sp.Scenario, stallLimit, blockedFrames(logb.String()))
+				v := &violation{Key: currentCheckID + "/hang/" + sp.Scenario + "/blocked-outside-the-scheduler", Scenario: sp.Scenario, Message: msg, Count: 1}
+				return &result{Scenario: sp.Scenario, Shard: sp.Shard, Outcomes: map[string]int{}, Violations: []*violation{v}, Capped: []string{"worker stopped: blocked outside the scheduler"}}, nil
+			}
+		case <-hard:
+			cmd.Process.Kill()
+			<-done
+			return nil, fmt.Errorf("worker for %s exceeded its hard limit of %ds", sp.Scenario, limit)
+		}
 	}
 	ob, rerr := os.ReadFile(outPath)
 	if rerr != nil {
@@ -322,6 +350,63 @@ func runWorker(b *build, pkg string, sp spec, wdir string) (*result, error) {
 	return &res, nil
 }
 
+// stallLimit: how long a worker may go without using any CPU time before it counts as hung.
+var stallLimit = 5 * time.Minute
+
+// currentCheckID: the check whose runs are being executed (one per vf process).
+var currentCheckID string
+
+// cpuTicks returns utime+stime of a process in clock ticks (0 if it cannot be read).
+func cpuTicks(pid int) int64 {
+	b, err := os.ReadFile(fmt.Sprintf("/proc/%d/stat", pid))
+	if err != nil {
+		return 0
+	}
+	s := string(b)
+	if i := strings.LastIndexByte(s, ')'); i >= 0 {
+		s = s[i+1:]
+	}
+	f := strings.Fields(s)
+	if len(f) < 13 {
+		return 0
+	}
+	u, _ := strconv.ParseInt(f[11], 10, 64)
+	t, _ := strconv.ParseInt(f[12], 10, 64)
+	return u + t
+}
+
+// blockedFrames extracts, from a goroutine dump, the first frame in reservoir (non-harness) code of every goroutine.
+func blockedFrames(dump string) string {
+	var out []string
+	seen := map[string]bool{}
+	for _, g := range strings.Split(dump, "\n\ngoroutine ")[1:] {
+		lines := strings.Split(g, "\n")
+		state := lines[0]
+		for i := 1; i+1 < len(lines); i += 2 {
+			fn := strings.TrimSpace(lines[i])
+			if strings.HasPrefix(fn, "reservoir/") && !strings.HasPrefix(fn, "reservoir/zzverif/") && !strings.Contains(lines[i+1], "zz_verif_") {
+				loc := strings.TrimSpace(lines[i+1])
+				if k := strings.Index(loc, " +0x"); k > 0 {
+					loc = loc[:k]
+				}
+				if j := strings.Index(state, "["); j >= 0 {
+					state = state[j:]
+				}
+				line := "  " + strings.TrimSuffix(state, ":") + " " + fn + " (" + filepath.Base(loc) + ")"
+				if !seen[line] {
+					seen[line] = true
+					out = append(out, line)
+				}
+				break
+			}
+		}
+	}
+	if len(out) > 12 {
+		out = out[:12]
+	}
+	return strings.Join(out, "\n")
+}
+
 func tail(s string, n int) string {
 	if len(s) > n {
 		return "..." + s[len(s)-n:]
@@ -349,6 +434,10 @@ func runCheck(id, tier string) int {
 	if def == nil {
 		fmt.Fprintln(os.Stderr, "unknown check", id)
 		return 2
+	}
+	currentCheckID = def.ID
+	if n, err := strconv.Atoi(os.Getenv("VF_STALL_SEC")); err == nil && n > 0 { // development aid
+		stallLimit = time.Duration(n) * time.Second
 	}
 	runs := def.Runs(tier)
 	if want := os.Getenv("VF_SCENARIO"); want != "" { // development aid: only the runs of one scenario
